@@ -10,7 +10,11 @@ SPEC = {
         "query / fragment, ':' '@' inside path / query) x suffix_aware: lru_to_url(url_to_lru(u)) and lru_to_url(lru_stems(u)) re-parse to the components "
         "of u, the second trip yields the same LRU, serialize / unserialize are mutually inverse, a serialized LRU ends with '|'. "
         "Deductive extra (all inputs, pyvc): lru_stems_from_parsed_url raises nothing of its own - the tuple unpacking, both split(sep, 1) unpackings, "
-        "netloc[0], netloc[1], query[0], fragment[0] are safe; only ValueError of split_suffix's urlsplit may escape. The losslessness itself goes through "
+        "netloc[0], netloc[1], query[0], fragment[0] are safe; only ValueError of split_suffix's urlsplit may escape. Its FUNCTIONAL contract is proved too (loop invariants: append-only, element-wise): the "
+        "result is, in this order and with nothing else, 's:'+scheme iff a scheme; 't:'+port iff the port splitter found one; the host stems (plain: the "
+        "labels of the host reversed, a special host as one stem; suffix-aware: the public suffix as ONE stem, then the labels before it reversed); one "
+        "'p:' stem per path segment after the leading '/', empty segments included, in order; 'q:'+query, 'f:'+fragment, 'u:'+user, 'w:'+password, each iff "
+        "present (an empty password is a password) - every component of the record ends up in exactly one place (C12), most significant first (C13). The losslessness itself goes through "
         "urlunsplit / urlsplit and a look-ahead regex split: not decidable by the available back ends."),
     "assumptions": ["an empty '?' / '#' of the input is not demanded back (test/lru_stems_test.py pins 'site.com?' to stems without q:)",
                     "pattern.split(s) returns at least one piece; 'sep in s' => s.split(sep, 1) has two pieces"],
